@@ -84,6 +84,7 @@ func main() {
 	explainF := flag.String("explain", "", "print the violations file and re-run")
 	tags := flag.String("tags", "", "build tags")
 	list := flag.Bool("list", false, "list properties with rules")
+	all := flag.Bool("all", false, "maintenance: run every property's rules in one process (one load), print the reports, write no evidence")
 	genBase := flag.Bool("gen-baseline", false, "maintenance: rewrite baseline_funcs.json (the functions the rules were validated against) from -repo")
 	flag.Parse()
 	if *genBase {
@@ -107,6 +108,28 @@ func main() {
 			fmt.Println(p, len(registry[p]))
 		}
 		return
+	}
+	if *all {
+		os.Setenv("FDCHECK_NO_EVIDENCE", "1")
+		c, err := load(*repo, nil, *tags)
+		if err != nil {
+			fmt.Printf("LOAD-FAILURE: %v\n", err)
+			os.Exit(1)
+		}
+		c.Tier = "quick"
+		var ps []string
+		for p := range registry {
+			ps = append(ps, p)
+		}
+		sort.Strings(ps)
+		rc := 0
+		for _, p := range ps {
+			fmt.Printf("=== %s\n", p)
+			if finish(c, p, "quick", 0, runProperty(c, p), nil, time.Now()) != 0 {
+				rc = 1
+			}
+		}
+		os.Exit(rc)
 	}
 	if t := os.Getenv("VERIF_TIER"); t == "quick" || t == "thorough" {
 		*tier = t
